@@ -133,6 +133,58 @@ fn repair_case(sink: &mut Sink, xot: &mut Xot, vocab: &mut Vocab, root: xot::Nod
     }
 }
 
+/// C01 / C10 for a start node INSIDE the tree: `to_string(inner element)` also writes the
+/// declarations in scope at the element; parsing that text must give a document whose document
+/// element is deep_equal to the inner element (oracle), and that document, read back, must be the
+/// model's `standalone` (Model/InnerStartSpec.lean) of the original tree at the element's path
+/// (correspondence request `standalone <path> <tree>`).
+fn inner_case(rng: &mut Rng, sink: &mut Sink, xot: &mut Xot, vocab: &mut Vocab, root: xot::Node, original: &GTree) {
+    let paths = original.paths();
+    let nodes = nodes_in_order(xot, root);
+    let inner: Vec<usize> = (0..paths.len())
+        .filter(|&i| !paths[i].is_empty() && matches!(original.at(&paths[i]).unwrap().v, GValue::Element(_)))
+        .collect();
+    if inner.is_empty() {
+        sink.stat("rt.inner.no-element");
+        return;
+    }
+    for _ in 0..2 {
+        let i = *rng.pick(&inner);
+        let (path, node) = (&paths[i], nodes[i]);
+        let replay = vec![format!("tree {}", original.wire()), format!("start {}", path_str(path))];
+        let s = match crate::common::guarded(|| xot.to_string(node)) {
+            None => {
+                sink.fail("C01", "C01:inner-to_string-panics", "to_string(inner element) panicked", &replay);
+                continue;
+            }
+            Some(Err(xot::Error::MissingPrefix(_))) => {
+                sink.stat("rt.inner.missing-prefix");
+                continue;
+            }
+            Some(Err(e)) => {
+                sink.fail("C01", "C01:inner-serialise-error", &format!("to_string(inner) failed: {:?}", e), &replay);
+                continue;
+            }
+            Some(Ok(s)) => s,
+        };
+        sink.stat(&format!("rt.inner.depth-{}", path.len()));
+        match xot.parse(&s) {
+            Err(e) => sink.fail("C01", "C01:inner-reparse-rejected", &format!("{:?} for {:?}", e, s), &replay),
+            Ok(r2) => {
+                let back = read_tree(xot, vocab, r2);
+                let count_ns = |t: &GTree| t.kids.iter().filter(|k| matches!(k.v, GValue::Namespace(..))).count();
+                let inherited = back.kids.first().map(count_ns).unwrap_or(0).saturating_sub(count_ns(original.at(path).unwrap()));
+                sink.stat(&format!("rt.inner.inherited-{}", inherited.min(4)));
+                match xot.document_element(r2) {
+                    Ok(e2) if xot.deep_equal(node, e2) => sink.stat("rt.inner.deep-equal"),
+                    _ => sink.fail("C01", "C01:inner-reparse-not-deep-equal", &format!("reparsed {} ; output {:?}", back.wire(), s), &replay),
+                }
+                sink.emit(format!("standalone {} {}", path_str(path), original.wire()), format!("ok {}", back.wire()));
+            }
+        }
+    }
+}
+
 pub fn one_case(rng: &mut Rng, sink: &mut Sink, emit: bool) {
     let mut xot = Xot::new();
     let mut vocab = Vocab::standard(&mut xot);
@@ -178,6 +230,7 @@ pub fn one_case(rng: &mut Rng, sink: &mut Sink, emit: bool) {
         Err(e) => crate::suite_ser::err_str(&e),
     };
     sink.emit(format!("sertokens {}", original.wire()), rendered);
+    inner_case(rng, sink, &mut xot, &mut vocab, root, &original);
     let s = match xot.to_string(root) {
         Ok(s) => s,
         Err(xot::Error::MissingPrefix(_)) => {
